@@ -393,7 +393,10 @@ func (r *c19Run) stepTask(i int) (entry, lab string, stuck bool) {
 	if t.Panic != nil {
 		r.violate("C19/panic", fmt.Sprintf("task %d panicked after %s: %v", i, before, t.Panic))
 	}
-	if before == "r.lock" && lab != "r.lock" && ret != nil {
+	// the lock acquisition of Return that decides what becomes of the connection: the last one it passes (a changed tree
+	// may look the bucket up under a reader lock first: "r.rlock", and take the writer lock only when it is missing)
+	retLock := func(l string) bool { return l == "r.lock" || l == "r.rlock" }
+	if retLock(before) && !retLock(lab) && ret != nil {
 		if wasNil {
 			ret.retDead = true
 			r.leakedOrder = append(r.leakedOrder, ret.id)
@@ -592,9 +595,14 @@ func c19Run1(cs *c19Case, out *vh.Out) {
 		keysStr = c19Ints(ids)
 	}
 	inChan := map[int]int{}
+	orphanIdle := map[int]int{} // connection -> bucket: idle in a bucket that is not in the map of the live pool
 	var chs []string
 	if !stuck {
 		for i, ch := range r.chans {
+			mapped := false
+			for _, v := range r.p.keys {
+				mapped = mapped || v.c == ch
+			}
 			var buf []int
 			closed := false
 		drain:
@@ -607,6 +615,9 @@ func c19Run1(cs *c19Case, out *vh.Out) {
 					}
 					buf = append(buf, c.(*c19Conn).id)
 					inChan[c.(*c19Conn).id]++
+					if !mapped && r.p.keys != nil {
+						orphanIdle[c.(*c19Conn).id] = i
+					}
 				default:
 					break drain
 				}
@@ -676,6 +687,11 @@ func c19Run1(cs *c19Case, out *vh.Out) {
 			}
 			if quiet && places == 0 {
 				r.violate("C19/conn-lost", fmt.Sprintf("conn %d is neither held, idle in a bucket, nor closed at the end", c.id))
+			}
+			if b, ok := orphanIdle[c.id]; ok && quiet && heldCnt[c.id] == 0 && c.closeCount == 0 {
+				// (the model: C19_idle_is_reachable) no pool call is in progress, the pool is live, and the bucket this
+				// connection sits in is not in the map: no Get, sweep or shutdown will ever see it
+				r.violate("C19/conn-lost", fmt.Sprintf("conn %d is idle in bucket %d (key k%d) which is not in the map of the live pool: it can be neither handed out nor closed", c.id, b, r.chanKey[b]))
 			}
 			if quiet && r.shutDone && c.retLive && !c.retDead && c.closeCount == 0 && heldCnt[c.id] == 0 {
 				r.violate("C19/returned-conn-never-closed", fmt.Sprintf("conn %d was returned to the live pool and is neither handed out nor closed after shutdown (idle in bucket: %d)", c.id, inChan[c.id]))
@@ -1190,8 +1206,84 @@ func c19GenTickShutdown(r *vh.Rng) *c19Case {
 	return cs
 }
 
+// c19GenFreshKey: several workers hold connections for a key that has no bucket (first use of the key, or the bucket
+// was dropped by a sweep / an expiry meanwhile) and return them at the same time: the Returns are interleaved one
+// synchronisation point at a time (every lock acquisition — reader or writer side —, select, helper yield), so that
+// each of them may have looked the bucket up before any of them has created it.  Then the key is asked for again
+// and the pool may be shut down: every returned connection is handed out again or closed once.
+func c19GenFreshKey(r *vh.Rng) *c19Case {
+	cs := &c19Case{style: "scenario fresh-key"}
+	cs.maxKeys = 1 + r.Intn(3)
+	cs.maxConns = 2 + r.Intn(2)
+	cs.maxLife = int64(2 + r.Intn(3))
+	cs.stale = int64(r.Intn(6))
+	nr := 2 + r.Intn(2)
+	warm := r.Chance(35) // the key had a bucket before: it is swept / expires while the connections are out
+	for w := 0; w < nr; w++ {
+		p := []string{"g0"}
+		if r.Chance(20) {
+			p = append(p, "g0")
+		}
+		if warm && w == 0 {
+			p = []string{"g0", "r", "g0"}
+		}
+		if r.Chance(40) {
+			p = append(p, "u")
+		}
+		p = append(p, "r")
+		if len(p) > 3 && r.Chance(50) {
+			p = append(p, "r")
+		}
+		cs.progs = append(cs.progs, p)
+	}
+	sweeper := -1
+	if warm {
+		sweeper = len(cs.progs)
+		cs.progs = append(cs.progs, []string{"c"})
+	}
+	again := len(cs.progs)
+	cs.progs = append(cs.progs, []string{"g0", "g0", "g0", "u", "r", "r", "r"}[:3+r.Intn(5)])
+	if r.Chance(60) {
+		cs.progs = append(cs.progs, []string{"s"})
+	}
+	// everybody takes his connection(s) out (the ops up to the last Get of his program)
+	for w := 0; w < nr; w++ {
+		last := 0
+		for i, o := range cs.progs[w] {
+			if o[0] == 'g' {
+				last = i
+			}
+		}
+		for i := 0; i <= last; i++ {
+			cs.script = append(cs.script, "U"+strconv.Itoa(w)+":idle")
+		}
+	}
+	if warm {
+		cs.script = append(cs.script, "t"+strconv.Itoa(int(cs.stale)+1), "U"+strconv.Itoa(sweeper)+":idle", "U"+strconv.Itoa(sweeper)+":idle")
+	}
+	// the Returns, in lock step (with a few random pre-emptions)
+	for round, m := 0, 6+r.Intn(6); round < m; round++ {
+		for _, w := range c19Perm(r, nr) {
+			if r.Chance(85) {
+				cs.script = append(cs.script, strconv.Itoa(w))
+			}
+		}
+		if r.Chance(10) {
+			cs.script = append(cs.script, strconv.Itoa(len(cs.progs)+r.Intn(3))) // a closer the pool started
+		}
+	}
+	for w := 0; w < nr; w++ {
+		cs.script = append(cs.script, "U"+strconv.Itoa(w)+":done")
+	}
+	cs.script = append(cs.script, "U"+strconv.Itoa(again)+":done")
+	return cs
+}
+
 func c19Gen(r *vh.Rng) *c19Case {
 	if r.Chance(30) {
+		if r.Chance(12) {
+			return c19GenFreshKey(r)
+		}
 		if r.Chance(25) {
 			return c19GenFullMap(r)
 		}
